@@ -163,7 +163,7 @@ func init() {
 			}
 		}})
 
-	register(&Rule{ID: "C16.validate", Props: []string{"C16", "C17"}, Floor: 16,
+	register(&Rule{ID: "C16.validate", Props: []string{"C16", "C17", "C09"}, Floor: 16,
 		Doc: "values persisted into asset parameters satisfy the validity constraints at the persist point",
 		Run: func(e *Engine, r *RuleRun) {
 			type site struct{ fn, callee string }
